@@ -298,6 +298,10 @@ func c11Gen(t *rapid.T) c11Case {
 		Sources: []string{"reader", "readseeker", "file", "iofs", "texttpl", "htmltpl", "writer", "reader-pos", "reader-drain", "buffer-reuse", "readseeker-pos"},
 	}
 	sign := ""
+	mw := ""
+	if rapid.IntRange(0, 5).Draw(t, "middleware") == 0 {
+		mw = rapid.SampledFrom([]string{"body", "subject"}).Draw(t, "mwkind")
+	}
 	if rapid.IntRange(0, 4).Draw(t, "signed") == 0 {
 		sign = rapid.SampledFrom([]string{"ecdsa", "ecdsa", "rsa"}).Draw(t, "signkey")
 		o.CRLFOnly = true // canonical content, so that DATA only adds the final CRLF outside the signed entity
@@ -313,6 +317,9 @@ func c11Gen(t *rapid.T) c11Case {
 	nGen := rapid.IntRange(0, 3).Draw(t, "ngeneric")
 	for i := 0; i < nGen; i++ {
 		spec.Headers = append(spec.Headers, gen.HeaderSpec{Name: fmt.Sprintf("X-Gen-%d", i), Values: []string{fmt.Sprintf("generic value %d", i)}})
+	}
+	if len(spec.Parts) > 0 {
+		spec.Middleware = mw // a middleware that rewrites the first body part / the subject on EVERY render
 	}
 	c := c11Case{Spec: *spec, Sign: sign}
 	nOps := rapid.IntRange(2, 5).Draw(t, "nops")
@@ -364,7 +371,7 @@ func c11Gen(t *rapid.T) c11Case {
 
 func TestC11(t *testing.T) {
 	rec := core.Rec("C11")
-	rec.Rule = "rapid draws a message program (0..3 parts, 0..2 embeds, 0..3 attachments; all file sources incl. read-seekers, files on disk, fs.FS, templates and custom writers; file encodings default/base64/8bit/7bit; 0..3 preformatted and 0..3 generic headers; Date/Message-ID/boundaries left to first use) " +
+	rec.Rule = "rapid draws a message program (0..3 parts, 0..2 embeds, 0..3 attachments; all file sources incl. read-seekers, files on disk, fs.FS, templates and custom writers; file encodings default/base64/8bit/7bit; 0..3 preformatted and 0..3 generic headers; Date/Message-ID/boundaries left to first use; one program in six carries a middleware that rewrites the first body part or the subject on every render) " +
 		"and a history of 4..5 render operations over {WriteTo, Write, NewReader, UpdateReader (also of a reader that was only partly read), WriteToFile (also onto an existing, longer file), WriteToTempFile, Send to the reference server (payload after dot-unstuffing), render into a sink failing at a drawn offset, render with one producer failing on exactly that invocation}; one history in five is S/MIME-signed (ECDSA or RSA). " +
 		"Oracle: every successful output is byte-identical to the first successful one (Send: modulo what DATA does to any content, bare LF -> CRLF and a final CRLF; signed messages: identical top-level fields with the per-render outer boundary masked and an identical signed entity). Non-trivial: >= 1 file or >= 2 parts, and two different output paths or a failed render in the history; distinct by (shape key, op sequence)."
 	rec.Assumptions = []string{"a sink offset beyond the output length is a successful render (not compared)", "a transmitted copy is never used as the reference (transport normalisation is lossy)", "signed histories use canonical CRLF content"}
